@@ -274,6 +274,9 @@ pub trait Progress: Sync {
     /// a case failed (first of its signature in the chunk): recorded at once, so that it survives a run
     /// that is killed later because another case does not return
     fn case_failed(&self, _fam: &str, _chunk: u64, _case: &Case) {}
+    /// a case has returned: a chunk of slow cases (whole server sessions on a loaded machine) shows that it
+    /// is alive between its first and its last case
+    fn heartbeat(&self) {}
 }
 
 pub struct NoProgress;
@@ -345,6 +348,7 @@ pub fn run_all(
                                 t(&case);
                             }
                             let v = eval(prop, ctx, &case);
+                            progress.heartbeat();
                             st.evaluations += 1;
                             idx += 1;
                             match v {
